@@ -218,6 +218,8 @@ where
 				Some(Err(err)) => return Err(err),
 				None => return Ok(written),
 			};
+			#[cfg(xt_verif)]
+			crate::verif::emit("enc_char", u64::from(u32::from(ch)), 0, 0);
 			let len = ch.encode_utf8(buf).len();
 			buf = &mut buf[len..];
 			written += len;
@@ -233,6 +235,8 @@ where
 				None => return Ok(written),
 			};
 
+			#[cfg(xt_verif)]
+			crate::verif::emit("enc_char", u64::from(u32::from(ch)), 1, 0);
 			let mut tmp = [0u8; MAX_UTF8_ENCODED_LEN];
 			let char_len = ch.encode_utf8(&mut tmp).len();
 
